@@ -554,6 +554,25 @@ class Evaluator(Interp):
     def e_IfExp(self, node, fr):
         c = self.truthy(self.eval(node.test, fr), fr)
         if fr.pure:
+            if getattr(fr, "pure_code", False) and self.pure_ctx:
+                # real code evaluated purely: each arm under its condition (raises, preconditions and
+                # facts inside it are guarded), with isinstance narrowing of locals
+                saved_env = dict(fr.env)
+                self.pure_extra.append(c)
+                try:
+                    self.narrow(node.test, fr)
+                    a = self.eval(node.body, fr)
+                finally:
+                    self.pure_extra.pop()
+                    fr.env = dict(saved_env)
+                self.pure_extra.append(z3.Not(c))
+                try:
+                    self.narrow_not(node.test, fr)
+                    b = self.eval(node.orelse, fr)
+                finally:
+                    self.pure_extra.pop()
+                    fr.env = dict(saved_env)
+                return self.ite(c, a, b)
             a = self.eval(node.body, fr)
             b = self.eval(node.orelse, fr)
             return self.ite(c, a, b)
@@ -1299,6 +1318,14 @@ class Evaluator(Interp):
             i = rest[0]
             a = v.ty.alts[i]
             fr.env[nm] = NONE if a is TNone else SV(a, acc(v.ty.proj(i, v.term)))
+        elif 1 < len(rest) < len(v.ty.alts):
+            # the remaining alternatives as a smaller union
+            t = TUnion([v.ty.alts[i] for i in rest])
+            res = None
+            for i in reversed(rest):
+                inj = self.coerce(SV(v.ty.alts[i], acc(v.ty.proj(i, v.term))), t).term
+                res = inj if res is None else z3.If(v.ty.is_alt(i, v.term), inj, res)
+            fr.env[nm] = SV(t, res)
 
     def narrow(self, test, fr):
         """After `isinstance(x, C)` (or a conjunction containing it) was found true, give the local x
